@@ -106,4 +106,17 @@ theorem C10_no_session_on_error (emailOK : Bytes → Bool) (i : CbIn) (h : i.log
 token call are each redeemed with their own code; nobody is handed a copy of someone else's session. -/
 theorem C10_redeem_not_coalesced : Sso.Generated.skel_auth_sf_Redeem = ["call:Redeem", "return"] := by decide
 
+/-- Tie (T1): the IdP callback and both providers' `Redeem` — call/branch/store skeletons regenerated from the source on every run; the expectations below are
+what the model in this file transliterates. A structural edit of any of these functions breaks this theorem and sends the
+check searching for a failing input. -/
+theorem C10_wiring :
+    Sso.Generated.skel_auth_getOAuthCallback =
+      ["call:NewLogEntry", "call:getRemoteAddr", "call:ParseForm", "if{", "call:Error", "return", "}", "call:Get", "if{", "call:append", "call:Incr", "return", "}", "call:Get", "if{", "return", "}", "call:redeemCode", "if{", "call:append", "call:Incr", "call:WithRemoteAddress", "call:Error", "return", "}", "call:Get", "call:DecodeString", "if{", "return", "}", "call:string", "call:SplitN", "call:len", "if{", "call:append", "call:Incr", "return", "}", "call:GetCSRF", "if{", "call:append", "call:Incr", "return", "}", "call:ClearCSRF", "if{", "call:append", "call:Incr", "call:WithRemoteAddress", "call:Error", "return", "}", "call:validRedirectURI", "if{", "call:append", "call:Incr", "return", "}", "call:RunValidators", "call:len", "call:len", "if{", "call:append", "call:Incr", "call:Sprintf", "call:WithRemoteAddress", "call:WithUser", "call:Info", "call:len", "call:make", "range{", "call:Error", "call:append", "}", "call:Join", "call:Sprintf", "return", "}", "call:Sprintf", "call:WithRemoteAddress", "call:WithUser", "call:Info", "call:WithRemoteAddress", "call:WithUser", "call:Info", "call:SaveSession", "if{", "call:append", "call:Incr", "call:WithRemoteAddress", "call:Error", "return", "}", "return"] ∧
+    Sso.Generated.skel_google_Redeem =
+      ["if{", "return", "}", "call:Add", "call:Add", "call:Add", "call:Add", "call:Add", "call:String", "call:googleRequest", "if{", "return", "}", "call:emailFromIDToken", "if{", "return", "}", "call:Duration", "call:ExtendDeadline", "call:ExtendDeadline", "return"] ∧
+    Sso.Generated.skel_okta_Redeem =
+      ["if{", "return", "}", "call:Add", "call:Add", "call:Add", "call:Add", "call:Add", "call:Add", "call:String", "call:oktaRequest", "if{", "return", "}", "call:verifyEmailWithAccessToken", "if{", "return", "}", "call:Duration", "call:ExtendDeadline", "call:ExtendDeadline", "return"] ∧
+    Sso.Generated.skel_okta_verifyEmailWithAccessToken =
+      ["if{", "return", "}", "call:GetUserProfile", "if{", "return", "}", "if{", "call:New", "return", "}", "if{", "call:New", "return", "}", "return"] := by decide
+
 end Sso.AuthN
